@@ -228,26 +228,34 @@ def offsetAtFrom (cur : Int) : List (Int × Int) → Int → Int
   | [], _ => cur
   | (t, o) :: rest, ns => if ns < t then cur else offsetAtFrom o rest ns
 
+/-- jiff 0.2.5 looks an instant up by `Timestamp::as_second()`, which truncates toward zero: an instant with a
+    non-zero fraction inside the last second before a transition *before 1970* already gets the offset after the
+    transition (finding F18, upstream).  Transitions are at whole seconds, so for every other instant this is the
+    plain lookup. -/
+def lookupNs (ns : Int) : Int := Int.tdiv ns 1000000000 * 1000000000
+
 /-- `TimeZone::to_offset` inside the window -/
-def offsetAt (z : ZoneTable) (ns : Int) : Int := offsetAtFrom z.init z.trans ns
+def offsetAt (z : ZoneTable) (ns : Int) : Int := offsetAtFrom z.init z.trans (lookupNs ns)
 
 def inWindow (z : ZoneTable) (ns : Int) : Bool := decide (z.lo ≤ ns ∧ ns ≤ z.hi)
 
 /-- `DateTime::to_zoned` ("compatible" disambiguation) on a wall-clock time `loc` (ns of the civil time read as if UTC):
     walk the transitions; transition `(t, o)` after offset `prev` owns the wall-clock interval
     `[t + min prev o, t + max prev o)` — a gap when `o > prev`, a fold when `o < prev`.
-    * before that interval: unambiguous, offset `prev`, the instant is `loc − prev`;
+    * before that interval: unambiguous, the instant is `loc − prev` and the offset `prev`;
     * inside it: the instant is `loc − prev` too (gap: the time shifted forward by the gap; fold: the earlier of the
-      two readings) — so both cases are the single test `loc < t + max prev o`;
+      two readings), and the offset is looked up again at that instant (`tz.to_offset(ts)`);
     * after it: go on with the next transition.
-    Returns the instant; the offset shown is the one in force at that instant. -/
-def resolveLocalFrom (prev : Int) : List (Int × Int) → Int → Int
-  | [], loc => loc - prev * 1000000000
+    Returns (instant, offset). -/
+def resolveLocalFrom (z : ZoneTable) (prev : Int) : List (Int × Int) → Int → Int × Int
+  | [], loc => (loc - prev * 1000000000, prev)
   | (t, o) :: rest, loc =>
-    if loc < t + (max prev o) * 1000000000 then loc - prev * 1000000000
-    else resolveLocalFrom o rest loc
+    if loc < t + (min prev o) * 1000000000 then (loc - prev * 1000000000, prev)
+    else if loc < t + (max prev o) * 1000000000 then
+      (loc - prev * 1000000000, offsetAt z (loc - prev * 1000000000))
+    else resolveLocalFrom z o rest loc
 
-def resolveLocal (z : ZoneTable) (loc : Int) : Int := resolveLocalFrom z.init z.trans loc
+def resolveLocal (z : ZoneTable) (loc : Int) : Int × Int := resolveLocalFrom z z.init z.trans loc
 
 /-- the journal zone: a fixed offset, or a table -/
 inductive JournalTz where
@@ -267,8 +275,8 @@ def windowMargin : Int := 100000 * 1000000000
 /-- wall-clock time → instant through a table; `.undef` when the table does not cover it -/
 def zonedInstant (z : ZoneTable) (loc : Int) : Outcome Ts :=
   if z.lo + windowMargin ≤ loc ∧ loc ≤ z.hi - windowMargin then
-    let inst := resolveLocal z loc
-    if instantOk inst then .ok ⟨inst, offsetAt z inst⟩ else .err
+    let r := resolveLocal z loc
+    if instantOk r.1 then .ok ⟨r.1, r.2⟩ else .err
   else .undef
 
 /-- `parse_timestamp` after lexing, any journal zone -/
